@@ -56,7 +56,7 @@ CHECKS = {
         props=['C02'], opts='props=1',
         quick=[mc(2, MAINSEEDS, DEL + GC + MODE, DEL),
                # a cell deleted, replaced on the same halffaces, collected: later deletions must still reach the new cell
-               mc(4, [1, 5], ['delete_cell', 'add_cell_closed', 'collect_garbage'], ['delete_face', 'delete_edge', 'delete_vertex'], Modes='ModesDeferred', BUSets='BUTwo')],
+               mc(4, [1, 5], ['delete_cell', 'add_cell_closed', 'collect_garbage'], ['delete_face', 'delete_edge', 'delete_vertex'], Modes='ModesDeferred', BUSets='BUTwo', Tree=True)],
         thorough=[mc(3, SMALL, DEL + GC + MODE, DEL),
                   mc(3, [3, 9, 10], DEL + ['add_cell_closed'], DEL, Modes='ModesTwo', BUSets='BUTwo')],
         sim=dict(ops=DEL + GC + ADDS + BUT + MODE + ['clear']),
@@ -71,9 +71,10 @@ CHECKS = {
         sim=dict(ops=DEL + GC + ADDS + SWAP + MODE + ['clear', 'more_props']),
     ),
     'C04': dict(
-        props=['C04', 'C03'], opts='props=1',
+        # C01's cache oracle as well: "equals the mesh obtained by performing the same deletions immediately" includes its incidences
+        props=['C04', 'C03', 'C01'], opts='props=1',
         quick=[mc(3, [2, 5, 6, 3], DEL, GC + ['enable_deferred'], Modes='ModesDeferred'),
-               mc(3, [1, 5, 2], ['delete_cell', 'add_cell_closed'], GC + ['enable_deferred'], Modes='ModesDeferred', BUSets='BUTwo'),
+               mc(3, [1, 5, 2], ['delete_cell', 'add_cell_closed'], GC + ['enable_deferred'], Modes='ModesDeferred', BUSets='BUTwo', Tree=True),
                mc(2, [1, 5], DEL, ['status_gc'], BUSets='BUTwo'),
                mc(1, [2, 4, 3], [], ['status_gc'], Modes='ModesTwo', BUSets='BUTwo')],
         thorough=[mc(4, [2, 5, 6], DEL, GC + ['enable_deferred'], Modes='ModesDeferred'),
@@ -106,7 +107,7 @@ CHECKS = {
                mc(1, [2, 3, 5, 7, 8], [], SWAP + ['reorder', 'enable_bu', 'reserve'], Modes='ModesDefault', BUSets='BUOn'),
                # fans built or modified while some incidence kind is off, then switched on (the reorder pass)
                mc(2, [3, 7, 8], BUT + ['delete_cell'], BUT, Modes='ModesTwo', BUSets='BUAll'),
-               mc(3, [3, 7, 8], ['delete_cell', 'add_cell_closed'], ['delete_cell', 'delete_face', 'add_cell_closed'], Modes='ModesTwo', BUSets='BUOn')],
+               mc(3, [3, 7, 8], ['delete_cell', 'add_cell_closed'], ['delete_cell', 'delete_face', 'add_cell_closed'], Modes='ModesTwo', BUSets='BUOn', Tree=True)],
         thorough=[mc(3, [2, 3, 5, 7, 8], DEL + GC + ['add_cell_closed'], DEL + GC + ['add_cell_closed'] + BUT, Modes='ModesTwo', BUSets='BUOn'),
                   mc(2, [2, 3, 5, 7, 8, 9, 10], DEL, SWAP + BUT, BUSets='BUOn'),
                   mc(4, [3, 7, 8], ['delete_cell', 'add_cell_closed'], ['delete_cell', 'delete_face', 'add_cell_closed'] + GC, Modes='ModesTwo', BUSets='BUOn')],
